@@ -81,11 +81,12 @@ CLAIMED = {
     "C09": dict(
         text="Coq theorems: C09_every_outcome_classified (in EVERY run from the initial state every task outcome - start_connection, finish_connection, disconnect, any request/response call - is the result, an error of the library hierarchy, "
              "or a cancellation, and a cancellation only ever ends disconnect() or a call), C09_connect_phases_never_cancelled, C09_reachable_futures_classified (invariant: call futures hold only the result, asyncio's time-out, a library error or a cancellation), "
+             "C09_cancellation_only_by_caller (such a cancellation only when the caller had cancelled that very operation: ghost flag set by the LCancel label alone; invariant C09_awaited_call_owned tying every awaited call to the one task that awaits it), "
              "C09_wrapper_always_library, C09_start_classified, C09_finish_failure_classified, C09_call_outcome, "
              "C09_first_cause_kept, C09_waiters_get_first_cause (all pending waiters receive the error derived from the first fatal cause), C09_start_arms_timer, C09_time_respects_deadlines, C09_documented_bounds (30/60/30/30/5/10 s read from the source). "
              "PARTIAL: the composition 'every awaited operation is complete by start + bound' is not proved as one theorem about runs; it is checked on the implementation at every quiescent point under the virtual clock together with a never-hangs audit.",
         note=CONN_NOTE + "Awaits inside third-party libraries (aiohappyeyeballs, zeroconf, getaddrinfo) are inputs that may complete with any outcome or never.",
-        tech="machine-checked proof in Coq (invariant on the call table over all 35 labels, Proofs/ConnOutcome.v; case analysis of every task exit; first-cause lemmas) + trace validation, completion-time and hang audit on the real APIConnection; partial (bounded-time composition is tested, not proved)",
+        tech="machine-checked proof in Coq (invariants on the call table and on the call/task ownership over all 35 labels, Proofs/ConnOutcome.v and Proofs/ConnCancel.v; case analysis of every task exit; first-cause lemmas) + trace validation, completion-time and hang audit on the real APIConnection; partial (bounded-time composition is tested, not proved)",
         ref="DESIGN.md §5 C09, §9.1"),
     "C10": dict(
         text="Coq theorems C10_ping_iff_idle, C10_dead_exactly (death exactly 4.5K after the first ping since the last message, hence between 5.5K and 6.5K after the last message), C10_obs_sources, C10_arrival_disarms, C10_all_runs about Model/Keepalive.v: "
